@@ -112,6 +112,7 @@ def check(prog, run):
                 else:
                     run.ok("sense-error-constructible-and-printable", c + (" print_data" if show else ""), nontrivial=False)
     run.count("short_sense_cases", nshort)
+    stale_prints, fresh_prints = {}, set()
     for show in (False, True):
         def th(show=show):
             e = I.instantiate(cls, [View("sense")], {"print_data": show} if show else {}, None, _F())
@@ -146,13 +147,30 @@ def check(prog, run):
                                               "exc.%s is %r, not the %s field of the sense format" % (attr, e.attrs.get(attr), field),
                                               file, init.node.lineno, init.qualname)
             for ev in p.events:
-                if ev["kind"] == "dynamic-dict-lookup" and ev.get("origin"):
+                if ev["kind"] == "print":
+                    f = ev.get("file")
+                    c = "print() at %s" % (ev["where"],)
+                    if f is not None and getattr(f, "at_import", False):
+                        stale_prints.setdefault(c, (f, ev))
+                    else:
+                        fresh_prints.add(c)
+                if ev["kind"] == "dynamic-dict-lookup" and ev.get("origin") and not ev.get("guarded"):
                     k = (ev["origin"], norm(ev["node"]))
                     lo, hi, ex = key_range(ev["key"], p.facts)
                     rec = lookups.setdefault(k, {"node": ev["node"], "obj": ev["obj"], "ranges": [], "where": ev["where"]})
                     rec["ranges"].append((lo, hi, frozenset(ex), p.cond_str()))
                 if ev["kind"] == "str-format":
                     check_format(run, ev, file)
+    # what is printed goes to the stream that is current when it is printed: a stream object captured when the module was
+    # imported (a default argument, a module-level alias of sys.stdout) is closed or replaced by the time an application that
+    # redirects its output sees the error, and print() to it raises ValueError
+    for c, (f, ev) in sorted(stale_prints.items()):
+        run.violation("prints-to-the-current-stream", c,
+                      "the text is written to %r as it was when the module was imported, not to the stream current at the time "
+                      "of printing: after the application closes or replaces that stream, printing the sense data raises" % (f,),
+                      file, getattr(ev.get("node"), "lineno", None), cls.qualname)
+    for c in sorted(fresh_prints - set(stale_prints)):
+        run.ok("prints-to-the-current-stream", c)
     for (origin, text), rec in lookups.items():
         d = rec["obj"]
         missing = set()
@@ -268,6 +286,14 @@ def check_format(run, ev, file):
     dirs = [d for d in dirs if d != "%"]
     node = ev["node"]
     c = "format %r" % fmt
+    # the literal text of everything the error prints or returns is plain ASCII, like T10's texts: anything else makes
+    # print() raise UnicodeEncodeError on a stream that cannot encode it (an ASCII / Latin-1 terminal, a redirected log)
+    odd = sorted(set(ch for ch in fmt if ord(ch) > 126 or (ord(ch) < 32 and ch not in "\n\t")))
+    if odd:
+        run.violation("text-is-plain-ascii", c, "the format string contains %s: printing the error fails on an ASCII / Latin-1 stream"
+                      % ", ".join("U+%04X" % ord(ch) for ch in odd), file, node.lineno)
+    else:
+        run.ok("text-is-plain-ascii", c, nontrivial=False)
     if len(dirs) != len(args):
         run.violation("format-arguments-fit", c, "%d directives but %d arguments" % (len(dirs), len(args)), file, node.lineno)
         return
